@@ -2,7 +2,8 @@
    Histories are lists of events (successful Outcome calls linked by next_i = prev_{i+1}); an erroring round
    commits nothing.  No honesty assumption: timestamps and votes are arbitrary. *)
 From stdpp Require Import gmap.
-From DS Require Import Base Decimal StreamValue Aggregators Outcome OutcomeProofs StepTheorems HistoryProofs NvHistory.
+From DS Require Import Base Decimal StreamValue Aggregators Config Outcome PluginFactory OutcomeProofs StepTheorems HistoryProofs NvHistory.
+From DS Require FactoryProofs.
 Open Scope Z_scope.
 
 (* consecutive reports rj (from event ej) and rk (from event ek) of channel c, no report of c in between,
@@ -51,6 +52,13 @@ Theorem C03_va_step : forall h cf e c v,
   o_va (ev_prev e) !! c = Some v ->
   o_va (ev_next e) !! c = Some (trunc_va (c_pver cf) (if reportable cf (ev_prev e) c then o_ts (ev_prev e) else v)).
 Proof. exact va_step. Qed.
+
+(* "for every accepted configuration": whatever NewReportingPlugin accepts (onchain + offchain config bytes, incl. the
+   documented fallback to the zero configuration for undecodable offchain bytes) satisfies cfg_accepted *)
+Theorem C03_factory_configs_are_accepted : forall f onchain offchain cf,
+  plugin_factory_cfg f onchain offchain = Ok cf -> cfg_accepted cf.
+Proof. exact FactoryProofs.factory_configs_are_accepted. Qed.
+Print Assumptions C03_factory_configs_are_accepted.
 
 (* non-vacuity: in the concrete history channel 7 reports in round 3, not in round 4 (same second), again in 5 *)
 Definition nv_e (seq : Z) aos prev next := {| ev_seq := seq; ev_aos := aos; ev_prev := prev; ev_next := next |}.
